@@ -1,1 +1,3 @@
 from . import simulation  # noqa
+from . import frames  # noqa
+from . import claims  # noqa
